@@ -266,7 +266,11 @@ func genC19(r *Run) {
 			// 4. single edits of a parsed set
 			if pl, err := rfc1035label.FromBytes(m); err == nil {
 				ed := append([]string{}, pl.Labels...)
-				switch r.Rng.Intn(7) {
+				switch r.Rng.Intn(9) {
+				case 7, 8: // a label moved across the boundary between two names: same labels, same count, other names
+					if len(ed) == 0 || !regroupNames(ed, r.Rng.Intn(len(ed))) {
+						ed = append(ed, "host.corp", "example.com")
+					}
 				case 5, 6: // a change of letter case only (names are compared octet by octet)
 					if len(ed) > 0 {
 						i := r.Rng.Intn(len(ed))
@@ -577,7 +581,13 @@ func checkLabelEdit(r *Run, b []byte, ed []string) {
 	// first, then other octets - each time it holds what those octets say and re-encodes to exactly them
 	for _, w := range [][]byte{b, append(append([]byte{}, b...), 2, 'z', 'z', 0), b} {
 		want, err0 := rfc1035label.FromBytes(append([]byte{}, w...))
+		kept := l.Labels // what a caller took out of the value before it was refreshed
+		keptWas := append([]string{}, kept...)
 		err := l.FromBytes(append([]byte{}, w...))
+		if !sameStrs(kept, keptWas) {
+			r.Fail("decode-into-used-value", hx(w)+fmt.Sprintf(" after %q", ed), fmt.Sprintf("the names taken from the value before it was decoded into again changed under their holder: %q became %q", keptWas, kept))
+			return
+		}
 		if (err == nil) != (err0 == nil) {
 			r.Fail("decode-into-used-value", hx(w)+fmt.Sprintf(" after %q", ed), fmt.Sprintf("decoding into a value that was decoded and edited before: error %v, into a fresh value: %v", err, err0))
 			return
